@@ -899,9 +899,106 @@ void op_signbad(const Case& c, TaskCtx& t, Outcome& o) {
       CHECK_FAIL("C12.signature_of_consistent_key_rejected", "signature made with a consistent key does not verify under parameter byte " + std::to_string(pb));
   }
 }
+
+// ------------------------------------------------------------------------------------------------ messages of 4 GiB and more
+// "A message of any length": lengths that do not fit 32 bits. The message is a read-only, never-written anonymous mapping
+// (every page is the kernel's shared zero page, so 4 GiB cost no memory) whose last byte abuts an unmapped page. What a
+// length narrowed to 32 bits somewhere on the way to the sponge does is decided by three observations: the call returns
+// within its step / CPU budget without a memory error (C05); a signature made for the first (len mod 2^32) bytes is NOT
+// accepted for the whole message (C02); sub=sign: signing succeeds and the signature verifies for the whole message and is
+// not the signature of the truncated one (C01).
+struct HugeMap {
+  uint8_t* base = nullptr;
+  size_t total = 0;
+  uint8_t* p = nullptr;
+  bool map(uint64_t n) {
+    const size_t PG = 4096;
+    size_t data = (size_t)((n + PG - 1) / PG * PG);
+    if (data == 0)
+      data = PG;
+    total = data + PG;
+    base = (uint8_t*)mmap(nullptr, total, PROT_READ, MAP_PRIVATE | MAP_ANONYMOUS | MAP_NORESERVE, -1, 0);
+    if (base == MAP_FAILED) {
+      base = nullptr;
+      return false;
+    }
+    mprotect(base + data, PG, PROT_NONE);
+    p = base + data - n;
+    return true;
+  }
+  ~HugeMap() {
+    if (base)
+      munmap(base, total);
+  }
+};
+void op_hugemsg(const Case& c, TaskCtx& t, Outcome& o) {
+  int param = (int)c.i("param", 1), surf = (int)c.i("surf", 0);
+  const model::Params* pp = model::params(param);
+  if (!pp || !generic_enabled(param) || !surface_available(surf, param) || sizeof(size_t) < 8) {
+    o.skipped = true;
+    return;
+  }
+  const model::Params& p = *pp;
+  uint64_t len = c.u("mlen", (1ULL << 32) + 5);
+  model::Key k = key_from_case(c, p);
+  bool dosign = c.s("sub", "verify") == "sign";
+  // the short relative: the first (len mod 2^16) bytes of the same all-zero message (= len mod 2^32 for lengths just above 2^32)
+  bytes shortmsg((size_t)(len & 0xFFFF), 0);
+  HonestInfo hi;
+  if (!honest_info(k, shortmsg, hi))
+    FAIL_STOP("C01.sign_failed", std::string(p.name) + ": could not create the honest signature of the short message");
+  HugeMap hm;
+  if (!hm.map(len)) {
+    o.skipped = true; // no address space for the mapping: nothing is asserted
+    if (t.stats)
+      t.stats->hit("skipped.no_address_space_for_huge_message");
+    return;
+  }
+  int rate = p.dig == 32 ? 168 : 136;
+  // hash work of an honest call: the message is absorbed once per pass (signing: seed derivation and challenge; verifying:
+  // challenge), everything else is what the short relative costs
+  uint64_t per_pass = len / (uint64_t)rate + 2;
+  size_t mx = picnic_signature_size(param);
+  bytes sig = hi.sig;
+  int rc_sign = 0;
+  if (dosign) {
+    sig.assign(mx, 0);
+    size_t sl = mx;
+    t.env.perm_budget = 4 * (2 * per_pass + hi.perms) + 64;
+    rc_sign = libcall(t, [&] { return s_sign(surf, k, hm.p, (size_t)len, sig.data(), &sl); });
+    t.env.perm_budget = 0;
+    sig.resize(rc_sign == 0 && sl <= mx ? sl : 0);
+  }
+  t.env.perm_budget = 4 * (per_pass + hi.perms) + 64;
+  int rc = 0;
+  if (!dosign || rc_sign == 0)
+    rc = libcall(t, [&] { return s_verify(surf, k, hm.p, (size_t)len, sig.data(), sig.size()); });
+  t.env.perm_budget = 0;
+  o.digest = digest_of(rc, (uint64_t)rc_sign, nullptr, 0);
+  o.summary = std::string(dosign ? "sign rc=" + std::to_string(rc_sign) + " " : "") + "verify rc=" + std::to_string(rc) + " mlen=" + std::to_string(len);
+  if (G.solo_pass)
+    return;
+  if (t.stats) {
+    t.stats->hit("op.hugemsg");
+    t.stats->hit(len >= (1ULL << 32) ? "fault.message_length_2^32_or_more" : "fault.message_length_just_below_2^32");
+    t.stats->tuple(std::string(p.name) + "|" + family_tag(c) + "|hugemsg|surf" + std::to_string(surf) + "|" + c.s("sub", "verify") + "|" + (rc == 0 ? "accept" : "reject"));
+  }
+  if (dosign) {
+    if (rc_sign != 0)
+      CHECK_FAIL(owned("C01.sign_failed", {"C05"}), std::string(p.name) + ": sign returned " + std::to_string(rc_sign) + " for a message of " + std::to_string(len) + " bytes");
+    else if (rc != 0)
+      CHECK_FAIL(owned("C01.honest_signature_rejected", {"C05"}), std::string(p.name) + ": the signature of a message of " + std::to_string(len) + " bytes is rejected");
+    else if (sig == hi.sig)
+      CHECK_FAIL(owned("C03.differs_from_specification", {"C01", "C05"}), std::string(p.name) + ": the signature of an all-zero message of " + std::to_string(len) +
+                                                                          " bytes equals the signature of its first " + std::to_string(shortmsg.size()) + " bytes (length narrowed on the way to the hash)");
+  } else if (rc == 0)
+    CHECK_FAIL(owned("C02.accepted_altered", {"C05"}), std::string(p.name) + " surf" + std::to_string(surf) + ": a signature of the first " + std::to_string(shortmsg.size()) +
+                                                         " bytes is accepted for the all-zero message of " + std::to_string(len) + " bytes");
+}
 } // namespace
 
 void register_sign_ops(std::map<std::string, OpFn>& reg) {
+  reg["hugemsg"] = op_hugemsg;
   reg["sign"] = op_sign;
   reg["verify"] = op_verify;
   reg["signbad"] = op_signbad;
